@@ -2,10 +2,12 @@
 //! Drives the real `rustrtc::rtp`, `rustrtc::rtx` and the NACK helpers of `peer_connection`, writes
 //! one case per line for the Lean model (`RtcModel.C15*`), and evaluates the property's own oracles
 //! on the implementation: round trips, semantic stability, framing integrity, extension get/set laws,
-//! NACK set preservation, RTX restore — plus agreement with the webrtc-rs `rtp` / `rtcp` crates.
+//! NACK set preservation, RTX restore (hook, SDP path, run loop), RFC field offsets in both directions, RTCP padding
+//! transparency — plus agreement with the webrtc-rs `rtp` / `rtcp` crates.
 pub mod gens;
 pub mod nackh;
 pub mod refc;
+pub mod rtxrx;
 pub mod text;
 
 use crate::pk;
@@ -62,8 +64,9 @@ fn align4(n: usize) -> usize { (n + 3) & !3 }
 /// RFC field widths: `Err(class)` = the value cannot be put on the wire (the marshaller must refuse it),
 /// `Ok(q)` = it can, and `q` must come back: the packet itself, except for the three lossy fields the
 /// formats define — cumulative loss saturates at 24-bit signed (RFC 3550 §6.4.1), a REMB bitrate keeps its
-/// 18 most significant bits (mantissa/exponent), a NACK is the ascending set of its sequence numbers — and a
-/// BYE reason, which this stack cuts to the longest prefix of whole characters that fits 255 bytes.
+/// 18 most significant bits (mantissa/exponent), a NACK is the ascending set of its sequence numbers, a TWCC
+/// reference time is a 24-bit counter that wraps — and a BYE reason, which this stack cuts to the longest
+/// prefix of whole characters that fits 255 bytes.
 pub fn spec_roundtrip(p: &RtcpPacket) -> Result<RtcpPacket, &'static str> {
     const MAX_BODY: usize = 65_535 * 4;
     let sat = |b: &ReportBlock| ReportBlock { packets_lost: b.packets_lost.clamp(-(1 << 23), (1 << 23) - 1), ..b.clone() };
@@ -89,8 +92,9 @@ pub fn spec_roundtrip(p: &RtcpPacket) -> Result<RtcpPacket, &'static str> {
         RtcpPacket::RemoteBitrateEstimate(r) => { if r.ssrcs.len() > 255 { return Err("ssrcs>255"); }
             let bits = 64 - r.bitrate_bps.leading_zeros(); let e = bits.saturating_sub(18);
             Ok(RtcpPacket::RemoteBitrateEstimate(RemoteBitrateEstimate { bitrate_bps: (r.bitrate_bps >> e) << e, ..r.clone() })) }
-        RtcpPacket::TransportWideCc(t) => { if t.reference_time_64ms >= 1 << 24 { return Err("reftime>24bit"); }
-            if align4(16 + t.payload.len()) > MAX_BODY { return Err("body-too-long"); } Ok(p.clone()) }
+        // the reference time is a wrapping 24-bit counter of 64 ms ticks: a wider count goes out modulo 2^24
+        RtcpPacket::TransportWideCc(t) => { if align4(16 + t.payload.len()) > MAX_BODY { return Err("body-too-long"); }
+            Ok(RtcpPacket::TransportWideCc(TransportWideCc { reference_time_64ms: t.reference_time_64ms & 0x00FF_FFFF, ..t.clone() })) }
     }
 }
 
@@ -165,6 +169,63 @@ pub fn rfc_layout(want: &RtcpPacket, b: &[u8]) -> Option<String> {
                 || (be32(b, 16) >> 8) != t.reference_time_64ms || b[19] != t.feedback_packet_count { return bad("twcc fixed fields"); }
             if b[20..b.len() - pad] != t.payload[..] { return bad("twcc payload"); }
             if pad > 3 { return bad("twcc: more padding than needed"); } }
+    }
+    None
+}
+
+/// The PARSE direction against the RFC diagrams: `p` is what the stack's parser returned for the single packet `b`
+/// (any bytes a peer may send — reserved fields, trailing octets and padding are not judged); every field of `p` must
+/// be what the RFC puts at that octet offset. Independent of the stack's parser and of the Lean model.
+pub fn rfc_fields_of_parsed(p: &RtcpPacket, b: &[u8]) -> Option<String> {
+    let pad = if b[0] & 0x20 != 0 { b[b.len() - 1] as usize } else { 0 };
+    let end = b.len() - pad;                       // content ends here
+    let cnt = (b[0] & 0x1F) as usize;
+    let bad = |w: &str| Some(w.to_string());
+    let s24 = |o: usize| (((b[o] as i32) << 16 | (b[o + 1] as i32) << 8 | b[o + 2] as i32) << 8) >> 8;
+    let blk = |o: usize, r: &ReportBlock| be32(b, o) == r.ssrc && b[o + 4] == r.fraction_lost && s24(o + 5) == r.packets_lost && be32(b, o + 8) == r.highest_sequence
+        && be32(b, o + 12) == r.jitter && be32(b, o + 16) == r.last_sender_report && be32(b, o + 20) == r.delay_since_last_sender_report;
+    match p {
+        RtcpPacket::SenderReport(s) => {
+            if b[1] != 200 || s.report_blocks.len() != cnt || end < 28 + 24 * cnt { return bad("sr header"); }
+            if be32(b, 4) != s.sender_ssrc || be32(b, 8) != s.ntp_most || be32(b, 12) != s.ntp_least || be32(b, 16) != s.rtp_timestamp || be32(b, 20) != s.packet_count || be32(b, 24) != s.octet_count { return bad("sr sender info"); }
+            if !s.report_blocks.iter().enumerate().all(|(i, r)| blk(28 + 24 * i, r)) { return bad("sr report block"); } }
+        RtcpPacket::ReceiverReport(s) => {
+            if b[1] != 201 || s.report_blocks.len() != cnt || end < 8 + 24 * cnt || be32(b, 4) != s.sender_ssrc { return bad("rr header"); }
+            if !s.report_blocks.iter().enumerate().all(|(i, r)| blk(8 + 24 * i, r)) { return bad("rr report block"); } }
+        RtcpPacket::SourceDescription(s) => {
+            if b[1] != 202 || s.chunks.len() != cnt { return bad("sdes header"); }
+            let mut o = 4;
+            for c in &s.chunks {
+                if o + 4 > end || be32(b, o) != c.ssrc { return bad("sdes chunk ssrc"); } o += 4;
+                for i in &c.items { if o + 2 > end || b[o] != i.ty || o + 2 + b[o + 1] as usize > end { return bad("sdes item header"); }
+                    let l = b[o + 1] as usize; if String::from_utf8_lossy(&b[o + 2..o + 2 + l]) != i.text { return bad("sdes item text"); } o += 2 + l; }
+                // the item list ends at a null octet (or at the end of the packet); the next chunk starts on a 32-bit boundary
+                if o < end { if b[o] != 0 { return bad("sdes: items after the last returned one"); } o = (o + 4) & !3; } } }
+        RtcpPacket::Goodbye(g) => {
+            if b[1] != 203 || g.sources.len() != cnt || end < 4 + 4 * cnt { return bad("bye header"); }
+            if !g.sources.iter().enumerate().all(|(i, x)| be32(b, 4 + 4 * i) == *x) { return bad("bye sources"); }
+            let o = 4 + 4 * cnt;
+            match &g.reason { None => if o != end { return bad("bye: reason present on the wire"); },
+                Some(r) => if o >= end || o + 1 + b[o] as usize > end || String::from_utf8_lossy(&b[o + 1..o + 1 + b[o] as usize]) != *r { return bad("bye reason"); } } }
+        RtcpPacket::PictureLossIndication(x) => if b[1] != 206 || cnt != 1 || end < 12 || be32(b, 4) != x.sender_ssrc || be32(b, 8) != x.media_ssrc { return bad("pli"); },
+        RtcpPacket::FullIntraRequest(f) => {
+            if b[1] != 206 || cnt != 4 || end < 12 || be32(b, 4) != f.sender_ssrc || f.requests.len() != (end - 12) / 8 { return bad("fir header / entry count"); }
+            for (i, r) in f.requests.iter().enumerate() { let o = 12 + 8 * i; if be32(b, o) != r.ssrc || b[o + 4] != r.sequence_number { return bad("fir entry"); } } }
+        RtcpPacket::GenericNack(n) => {
+            if b[1] != 205 || cnt != 1 || end < 12 || be32(b, 4) != n.sender_ssrc || be32(b, 8) != n.media_ssrc { return bad("nack header"); }
+            let mut want = vec![];
+            for k in 0..(end - 12) / 4 { let (pid, blp) = (be16(b, 12 + 4 * k), be16(b, 14 + 4 * k)); want.push(pid);
+                for i in 0..16 { if blp >> i & 1 == 1 { want.push(pid.wrapping_add(i + 1)); } } }
+            if want != n.lost_packets { return bad("nack: PID/BLP expansion"); } }
+        RtcpPacket::RemoteBitrateEstimate(r) => {
+            if b[1] != 206 || cnt != 15 || end < 20 || be32(b, 4) != r.sender_ssrc || &b[12..16] != b"REMB" { return bad("remb header"); }
+            let n = b[16] as usize; if end < 20 + 4 * n || r.ssrcs.len() != n || !r.ssrcs.iter().enumerate().all(|(i, x)| be32(b, 20 + 4 * i) == *x) { return bad("remb ssrcs"); }
+            let (e, m) = ((b[17] >> 2) as u32, ((b[17] as u64 & 3) << 16) | (b[18] as u64) << 8 | b[19] as u64);
+            if ((m as u128) << e) as u64 != r.bitrate_bps { return bad("remb mantissa/exponent"); } }
+        RtcpPacket::TransportWideCc(t) => {
+            if b[1] != 205 || cnt != 15 || end < 20 { return bad("twcc header"); }
+            if be32(b, 4) != t.sender_ssrc || be32(b, 8) != t.media_ssrc || be16(b, 12) != t.base_sequence || be16(b, 14) != t.packet_status_count
+                || (be32(b, 16) >> 8) != t.reference_time_64ms || b[19] != t.feedback_packet_count || b[20..end] != t.payload[..] { return bad("twcc fields"); } }
     }
     None
 }
@@ -295,6 +356,18 @@ pub fn s_rtp_marshal(run: &mut Run, t: &str) -> (String, Fails) {
     let q2 = q.clone();
     let into = match catch(move || { q2.marshal_into(&mut buf); buf }) { Ok(b) => b, Err(p) => { f.push(("panic:marshal_into".into(), p)); vec![] } };
     if let Ok(b) = &r { if *b != into { f.push(("codec:rtp:marshal_into-differs".into(), hex(&into))); } }
+    // … and for a header the wire cannot carry it must not emit a packet that reads as something else
+    // (`marshal` refuses these; the fast path has no `validate` — known finding, one signature per field)
+    if !rtp_wf(&q) && !into.is_empty() {
+        let class = if q.header.payload_type > 127 { "pt>127" } else if q.header.csrcs.len() > 15 { "csrc>15" }
+            else if q.header.extension.as_ref().map_or(false, |e| e.data.len() % 4 != 0) { "ext-unaligned" } else { "ext>65535w" };
+        match RtpPacket::parse(&into) { Ok(p) if p == q => {}
+            Ok(p) => f.push((format!("codec:rtp:marshal_into-masks:{class}"), format!("reads back with a different {}", first_diff(&q, &p)))),
+            Err(e) => f.push((format!("codec:rtp:marshal_into-masks:{class}"), format!("emits an unparsable packet: {}", show_err(&e)))) }
+    }
+    // RFC 5761 §4: with the marker bit set, payload types 64..=80 put 192..=208 into the second octet — the stack's own
+    // demultiplexer (`is_rtcp`) then takes its own RTP output for RTCP (known finding; theorem `is_rtcp_rtp_iff`)
+    if let Ok(b) = &r { if is_rtcp(b) { f.push(("codec:rtp:rtcp-mux-collision:marker+pt64-80".into(), format!("M=1 PT={}", q.header.payload_type))); } }
     (format!("{} into:{}", res_hex(r), hex(&into)), f)
 }
 
@@ -475,13 +548,55 @@ pub fn s_rtcp_marshal(run: &mut Run, toks: &[&str]) -> (String, Fails) {
     (res_hex(r), f)
 }
 
+/// RFC 3550 §6.4.1: padding is not part of the packet's content. If every padded packet of `b` carries a
+/// padding that is valid and a multiple of four octets, returns the same compound WITHOUT the padding
+/// (P bit cleared, length field reduced) — written from the RFC, no knowledge of the packet types.
+fn without_padding(b: &[u8]) -> Option<Vec<u8>> {
+    let (mut off, mut out, mut any) = (0, vec![], false);
+    while off + 4 <= b.len() {
+        let l = (be16(b, off + 2) as usize + 1) * 4;
+        if off + l > b.len() || b[off] >> 6 != 2 { return None; }
+        if b[off] & 0x20 != 0 {
+            let pad = b[off + l - 1] as usize;
+            if pad == 0 || pad > l - 4 || pad % 4 != 0 { return None; }
+            any = true;
+            let words = (l - pad) / 4 - 1;
+            out.extend([b[off] & !0x20, b[off + 1], (words >> 8) as u8, words as u8]); out.extend(&b[off + 4..off + l - pad]);
+        } else { out.extend(&b[off..off + l]); }
+        off += l;
+    }
+    if any && off == b.len() { Some(out) } else { None }
+}
+
 pub fn s_rtcp_parse(run: &mut Run, hx: &str) -> (String, Fails) {
     let b = unhex(hx);
     let mut f = vec![];
+    // padding is transparent: the padded compound parses exactly like the unpadded one (all types and formats)
+    if let Some(u) = without_padding(&b) {
+        run.count("rtcp_padding_metamorphic_checked");
+        if let (Ok(a), Ok(c)) = (parse_c(&b), parse_c(&u)) {
+            let same = match (&a, &c) { (Ok(x), Ok(y)) => x == y, (Err(_), Err(_)) => true, _ => false };
+            if !same { let k = match (&a, &c) { (Ok(x), Ok(y)) => x.iter().zip(y.iter()).find(|(p, q)| p != q).map(|(p, _)| kind(p)).or(x.first().map(kind)).unwrap_or("compound"),
+                                                 (Ok(x), _) => x.first().map_or("compound", kind), (_, Ok(y)) => y.first().map_or("compound", kind), _ => "compound" };
+                f.push((format!("codec:{k}:padding-not-transparent"), format!("unpadded {} parses as {}", hex(&u), match &c { Ok(y) => show_rtcps(y), Err(e) => show_err(e) }))); }
+        }
+    }
     let out = match parse_c(&b) {
         Err(p) => { f.push(("panic:rtcp_parse".into(), p)); "panic".into() }
         Ok(Err(e)) => show_err(&e),
         Ok(Ok(ps)) => {
+            // parse direction, RFC level: walk the datagram by its length fields; every packet of a type the stack knows
+            // must have been returned with the fields the RFC diagrams put at their offsets
+            { let (mut off, mut k, mut ok) = (0, 0, true);
+              while off + 4 <= b.len() {
+                let l = (be16(&b, off + 2) as usize + 1) * 4; if off + l > b.len() { ok = false; break; }
+                let (pt, fmt) = (b[off + 1], b[off] & 0x1F);
+                let known = matches!(pt, 200..=203) || (pt == 205 && (fmt == 1 || fmt == 15)) || (pt == 206 && (fmt == 1 || fmt == 4 || fmt == 15));
+                if known { match ps.get(k) { None => { ok = false; break; }
+                    Some(p) => { if let Some(d) = rfc_fields_of_parsed(p, &b[off..off + l]) { f.push((format!("codec:{}:parse-rfc-fields", kind(p)), d)); } else { run.count("rtcp_parse_rfc_fields_ok"); } } }
+                    k += 1; }
+                off += l; }
+              if !ok || k != ps.len() { f.push(("codec:compound:parse-rfc-framing".into(), format!("{} packets returned, {k} known packets on the wire", ps.len()))); } }
             let ps2 = ps.clone();
             let m = match catch(move || marshal_rtcp_packets(&ps2)) { Ok(m) => m, Err(p) => { f.push(("panic:rtcp_marshal".into(), p)); return ("panic".into(), f); } };
             // ill-formed UTF-8 on the wire is replaced by U+FFFD (3 bytes each) and can push a text beyond the
@@ -509,7 +624,11 @@ pub fn s_rtcp_parse(run: &mut Run, hx: &str) -> (String, Fails) {
             // (the reference does not strip RTCP padding from NACK / REMB / FIR bodies)
             if padded && !ps.iter().all(|p| matches!(p, RtcpPacket::TransportWideCc(_) | RtcpPacket::Goodbye(_) | RtcpPacket::SenderReport(_) | RtcpPacket::ReceiverReport(_))) { run.count("rtcp_parse_ref_skipped_padding"); }
             else if !ps.iter().all(|p| ref_comparable(p, true)) { run.count("rtcp_parse_ref_skipped_not_comparable"); }
+            else if let Err(e) = refc::ref_parse_rtcp(&b) { run.count("rtcp_parse_ref_stricter"); run.count(&format!("rtcp_parse_ref_stricter:{}", e.chars().take(48).collect::<String>().replace(' ', "_"))); }
             else if let Ok(texts) = refc::ref_parse_rtcp(&b) {
+                // packets of types this stack skips (XR, APP, unknown types, feedback formats it does not know — errors
+                // aside) are packets the reference returns as raw/other packets: they are left out on both sides
+                let texts: Vec<Option<String>> = if texts.len() != ps.len() && texts.iter().flatten().count() == ps.len() { run.count("rtcp_parse_ref_extra_packets_skipped_by_stack"); texts.into_iter().filter(|t| t.is_some()).collect() } else { texts };
                 if texts.len() == ps.len() {
                     for (p, t) in ps.iter().zip(&texts) { if let Some(t) = t {
                         // compare only where the text is valid UTF-8 and the SDES types are the reference's
@@ -517,8 +636,9 @@ pub fn s_rtcp_parse(run: &mut Run, hx: &str) -> (String, Fails) {
                         if *t == want { run.count("rtcp_parse_agrees_with_ref"); }
                         else if !lossy_involved(p) { f.push((format!("codec:{}:ref-disagree", kind(p)), format!("ref {t} vs {want}"))); }
                     } }
-                } else { run.count("rtcp_parse_ref_different_count"); }
-            } else { run.count("rtcp_parse_ref_stricter"); }
+                } else { run.count(&format!("rtcp_parse_ref_different_count:ref={}({} comparable):own={}", texts.len(), texts.iter().flatten().count(), ps.len()));
+                    if std::env::var("C15_DEBUG").is_ok() { eprintln!("DIFFCOUNT {hx} own={}", show_rtcps(&ps)); } }
+            }
             format!("ok {} | {}", show_rtcps(&ps), res_hex(m))
         }
     };
@@ -578,7 +698,30 @@ pub fn s_apt(_run: &mut Run, hx: &str) -> (String, Fails) {
     let b = unhex(hx);
     let t = String::from_utf8(b).expect("utf-8");
     let r = rustrtc::rtx::parse_apt(&t);
-    (match r { None => "none".into(), Some(v) => format!("some:{v}") }, vec![])
+    let mut f = vec![];
+    // RFC 4588 §8.1 / RFC 4566 fmtp: `apt=<pt>` is one parameter of a `;`-separated list; the first one decides
+    if let Some(want) = spec_apt(&t) { if r != want { f.push(("codec:rtx:apt".into(), format!("{r:?}, RFC 4588 reading {want:?}"))); } }
+    (match r { None => "none".into(), Some(v) => format!("some:{v}") }, f)
+}
+
+/// `Some(expected)` for the inputs the RFC syntax decides: a `;`-separated parameter list (white space around a
+/// parameter insignificant) whose parameters are all of the form `name=value`, `name` or empty, where an `apt`
+/// value is a decimal payload type; `None` (no verdict) for anything else (signs, leading zeros, inner spaces …)
+pub fn spec_apt_pub(t: &str) -> Option<Option<u8>> { spec_apt(t) }
+fn spec_apt(t: &str) -> Option<Option<u8>> {
+    if !t.is_ascii() { return None; }
+    for part in t.split(';') {
+        let part = part.trim_matches(|c: char| c == ' ' || c == '\t' || c == '\r' || c == '\n');
+        let (name, val) = match part.split_once('=') { Some((n, v)) => (n, Some(v)), None => (part, None) };
+        if name.chars().any(|c| c.is_ascii_whitespace()) { return None; }
+        if name == "apt" {
+            let v = val?;
+            if v.is_empty() || !v.bytes().all(|c| c.is_ascii_digit()) || (v.len() > 1 && v.starts_with('0')) || v.len() > 4 { return None; }
+            return Some(v.parse::<u32>().ok().filter(|n| *n <= 255).map(|n| n as u8));
+        }
+        if name.eq_ignore_ascii_case("apt") || name.to_ascii_lowercase().contains("apt") { return None; }
+    }
+    Some(None)
 }
 
 pub fn s_aptmap(_run: &mut Run, toks: &[&str]) -> (String, Fails) {
@@ -588,10 +731,19 @@ pub fn s_aptmap(_run: &mut Run, toks: &[&str]) -> (String, Fails) {
     let m = rustrtc::rtx::extract_rtx_apt_map(&attrs);
     let mut v: Vec<(u8, u8)> = m.iter().map(|(a, b)| (*a, *b)).collect(); v.sort();
     let mut f = vec![];
-    // what `append_rtx_to_section` writes is read back: "<rtx> apt=<primary>"
-    for (k, val) in &attrs { if k == "fmtp" { if let Some(val) = val { if let Some((a, rest)) = val.split_once(' ') {
-        if let (Ok(pt), Some(p)) = (a.parse::<u8>(), rest.strip_prefix("apt=").and_then(|x| x.parse::<u8>().ok())) {
-            if !rest.contains(';') && !m.contains_key(&pt) { f.push(("codec:rtx:aptmap".into(), format!("{pt} apt={p} not in map"))); } } } } } }
+    // RFC 4588 §8.6: `a=fmtp:<rtx pt> apt=<primary pt>[;…]` associates the two; the map is exactly what the fmtp
+    // lines the RFC reading decides say (a later line for the same payload type replaces an earlier one)
+    let mut want: Option<std::collections::BTreeMap<u8, u8>> = Some(Default::default());
+    for (k, val) in &attrs { if k == "fmtp" { if let Some(val) = val { match val.split_once(' ') {
+        Some((a, rest)) if !a.is_empty() && a.bytes().all(|c| c.is_ascii_digit()) && !(a.len() > 1 && a.starts_with('0')) && a.len() <= 3 && !rest.starts_with(' ') => {
+            match (a.parse::<u8>().ok(), spec_apt(rest)) {
+                (Some(pt), Some(Some(p))) => { if let Some(w) = want.as_mut() { w.insert(pt, p); } }
+                (_, Some(None)) | (None, _) => {}
+                _ => want = None } }
+        None if val.bytes().all(|c| c.is_ascii_digit()) => {}
+        _ => want = None } } } }
+    if let Some(w) = want { let got: std::collections::BTreeMap<u8, u8> = m.iter().map(|(a, b)| (*a, *b)).collect();
+        if got != w { f.push(("codec:rtx:aptmap".into(), format!("{got:?}, RFC 4588 reading {w:?}"))); } }
     (show_list(v.iter().map(|(a, b)| format!("{a}:{b}")).collect(), ";"), f)
 }
 
@@ -635,6 +787,11 @@ pub fn s_rtx_rx(_run: &mut Run, a: &[&str]) -> (String, Fails) {
     // documented behaviour: a packet that is neither on an RTX payload type nor on the RTX SSRC passes unchanged
     let mapped = apt.iter().find(|(k, _)| *k == p.header.payload_type).map(|(_, v)| *v);
     if mapped.is_none() && rtx_ssrc != Some(p.header.ssrc) && r.as_ref() != Some(&p) { f.push(("codec:rtx:rx-primary-not-passed".into(), String::new())); }
+    // … and a packet on a negotiated RTX payload type IS a retransmission: restored whenever the primary SSRC is known
+    // and the OSN is there (with or without a negotiated RTX SSRC — `apt=` alone suffices), dropped otherwise
+    if mapped.is_some() && ssrc != 0 && p.payload.len() >= 2 && r.is_none() { f.push(("codec:rtx:rx-retransmission-dropped".into(), format!("rtx ssrc {rtx_ssrc:?}"))); }
+    if mapped.is_some() && (ssrc == 0 || p.payload.len() < 2) && r.is_some() { f.push(("codec:rtx:rx-unrestorable-not-dropped".into(), String::new())); }
+    if mapped.is_none() && rtx_ssrc == Some(p.header.ssrc) && r.is_some() { f.push(("codec:rtx:rx-unmapped-on-rtx-ssrc-not-dropped".into(), String::new())); }
     if let (Some(ppt), Some(u)) = (mapped, &r) {
         if u.header.ssrc != ssrc || u.header.payload_type != ppt || p.payload.len() < 2 || u.payload[..] != p.payload[2..]
             || u.header.sequence_number != u16::from_be_bytes([p.payload[0], p.payload[1]]) || u.header.timestamp != p.header.timestamp || u.header.marker != p.header.marker {
@@ -688,6 +845,8 @@ pub fn exec(run: &mut Run, case: &str) -> (String, String, String, Fails) {
         "apt" => s_apt(run, a[0]),
         "apt_append" => s_apt_append(run, a),
         "rtx_rx" => s_rtx_rx(run, a),
+        "rtx_sdp" => rtxrx::s_rtx_sdp(run, a),
+        "rtx_loop" => rtxrx::s_rtx_loop(run, a),
         "aptmap" => s_aptmap(run, a),
         "is_rtcp" => s_is_rtcp(run, a[0]),
         "osn" => s_osn(run, a[0]),
@@ -714,12 +873,12 @@ fn emit(run: &mut Run, case: String, nontrivial_hint: bool) {
 pub fn run(args: &Args) {
     let mut run = Run::new("c15", &args.out);
     if let Some(case) = &args.replay {
-        const STREAMS: [&str; 21] = ["apt_append", "rtx_rx", "apt", "aptmap", "rtp_marshal", "rtp_parse", "rtp_parse_ref", "ext_get", "ext_set", "rtcp_marshal", "rtcp_parse",
+        const STREAMS: [&str; 23] = ["rtx_sdp", "rtx_loop", "apt_append", "rtx_rx", "apt", "aptmap", "rtp_marshal", "rtp_parse", "rtp_parse_ref", "ext_get", "ext_set", "rtcp_marshal", "rtcp_parse",
             "rtcp_parse_ref", "utf8", "rtx_wrap", "rtx_unwrap", "nackbuf", "gap", "is_rtcp", "osn", "rtx_alloc", "-"];
         let first = case.split_whitespace().next().unwrap_or("-");
         // replay files written for a model/implementation disagreement carry the input without its
         // stream name: try every stream the input is well-formed for
-        let cands: Vec<String> = if STREAMS.contains(&first) { vec![case.clone()] } else { STREAMS[..20].iter().map(|s| format!("{s} {case}")).collect() };
+        let cands: Vec<String> = if STREAMS.contains(&first) { vec![case.clone()] } else { STREAMS[..22].iter().map(|s| format!("{s} {case}")).collect() };
         for c in cands {
             let c2 = c.clone();
             let dir = format!("{}/replay", args.out);
@@ -1011,10 +1170,40 @@ pub fn run(args: &Args) {
         emit(&mut run, format!("rtx_rx {apt} {rs} {latched} {}", show_pkt(&pkt)), true);
     }
 
+    // the same through the production writers: remote SDP → set_remote_description → receiver state → maybe_unwrap_rtx
+    for _ in 0..150 * scale.min(8) {
+        let orig = { let mut p = gens::rtp_packet(&mut rng, true); p.header.payload_type = pk!(rng, [96u8, 96, 100]); p.header.ssrc = pk!(rng, [1111u32, 1111, 2222]); p };
+        let rtx_pt = pk!(rng, [97u8, 97, 101, 120]);
+        let cfg = rustrtc::rtx::RtxSenderConfig { rtx_ssrc: pk!(rng, [9999u32, 9999, 1111]), rtx_payload_type: pk!(rng, [rtx_pt, rtx_pt, rtx_pt, 96, 98]) };
+        let fmtp = pk!(rng, ["apt=96", "apt=96", "apt=96;rtx-time=3000", "rtx-time=3000;apt=96", "apt=100", "rtx-time=3000", "apt=96; rtx-time=200", "APT=96", "apt=300", "apt=", "apt=96,rtx-time=1"]);
+        let fid = pk!(rng, ["-", "1111:9999", "1111:9999", "2222:9999"]);
+        let ssrcs = pk!(rng, ["1111;9999", "1111;9999", "1111", "-", "9999;1111", "2222;1111"]);
+        let pkt = match rng.below(4) { 0 => orig.clone(), 1 => { let mut w = rustrtc::rtx::wrap_rtx_packet(&orig, &cfg, gens::g16(&mut rng)); w.payload = Bytes::from(w.payload[..rng.below(3) as usize].to_vec()); w }
+            _ => rustrtc::rtx::wrap_rtx_packet(&orig, &cfg, gens::g16(&mut rng)) };
+        emit(&mut run, format!("rtx_sdp {rtx_pt} {} {fid} {ssrcs} {}", hex(fmtp.as_bytes()), show_pkt(&pkt)), true); run.count("rtx_via_sdp");
+    }
+    // … and through the receiver's run loop (set_rtx_ssrc / set_rtx_apt_map / set_transport, packets into its channel,
+    // the SSRC latch): primary packets latch the SSRC that later retransmissions are restored with
+    for _ in 0..300 * scale.min(8) {
+        let apt = pk!(rng, ["97:96", "97:96", "97:96;101:100", "-", "97:100", "101:111;97:96"]);
+        let rs = pk!(rng, ["9999", "9999", "-", "1111"]);
+        let ssrc0 = pk!(rng, [0u32, 0, 1111, 2222]);
+        let n = rng.range(1, 5);
+        let mut toks = vec![];
+        for _ in 0..n {
+            let orig = { let mut p = gens::rtp_packet(&mut rng, true); p.header.payload_type = pk!(rng, [96u8, 96, 100, 111]); p.header.ssrc = pk!(rng, [1111u32, 1111, 2222, 3333]); p };
+            let cfg = rustrtc::rtx::RtxSenderConfig { rtx_ssrc: pk!(rng, [9999u32, 9999, 1111]), rtx_payload_type: pk!(rng, [97u8, 97, 101, 96]) };
+            let pkt = match rng.below(5) { 0 | 1 => orig.clone(), 2 => { let mut w = rustrtc::rtx::wrap_rtx_packet(&orig, &cfg, gens::g16(&mut rng)); w.payload = Bytes::from(w.payload[..rng.below(3) as usize].to_vec()); w }
+                _ => rustrtc::rtx::wrap_rtx_packet(&orig, &cfg, gens::g16(&mut rng)) };
+            toks.push(show_pkt(&pkt));
+        }
+        emit(&mut run, format!("rtx_loop {apt} {rs} {ssrc0} {}", toks.join(" ")), true); run.count("rtx_via_run_loop");
+    }
+
     // ---- NACK send buffer and receiver gap detection
     nackh::generate(&mut run, &mut rng, scale, &mut |run, case| emit(run, case, true));
 
     run.notes.insert("scope".into(), serde_json::json!(
-        "streams: rtp_marshal/rtp_parse(+reference bytes)/ext_get/ext_set/rtcp_marshal/rtcp_parse(+reference bytes)/utf8/rtx_wrap/rtx_unwrap/nackbuf/gap; NACK window subsets exhaustive"));
+        "streams: rtp_marshal(+marshal_into)/rtp_parse(+reference bytes)/ext_get/ext_set/rtcp_marshal/rtcp_parse(+reference bytes, +RTCP padding)/utf8/rtx_wrap/rtx_unwrap/rtx_rx/rtx_sdp/rtx_loop/apt/aptmap/apt_append/is_rtcp/osn/rtx_alloc/nackbuf/gap; NACK window subsets exhaustive"));
     run.finish();
 }
